@@ -2743,6 +2743,9 @@ impl Node {
                 ))
             };
         }
+        // read the clock under the state lock (as add_keysend does), so that the velocity
+        // control never sees time go backwards when approvals overlap
+        let now = self.clock.now();
         if !state.velocity_control.insert(now.as_secs(), payment_state.amount_msat) {
             warn!(
                 "policy-commitment-payment-velocity velocity would be exceeded - += {} = {} > {}",
